@@ -2,41 +2,50 @@ def c10_forms():
     L = []
     U = ["u8", "u16", "u32", "u64", "u128", "usize"]
     I = ["i8", "i16", "i32", "i64", "i128", "isize"]
-    # (key, form expression with big `a` and scalar `s`, which side the big is on)
     def forms(op):
         return [("bv_s", "a %s s" % op, "L"), ("br_s", "&a %s s" % op, "L"), ("bv_sr", "a %s &s" % op, "L"), ("br_sr", "&a %s &s" % op, "L"),
                 ("s_bv", "s %s a" % op, "R"), ("s_br", "s %s &a" % op, "R"), ("sr_bv", "&s %s a" % op, "R"), ("sr_br", "&s %s &a" % op, "R"),
                 ("assign", "{ let mut x = a; x %s= s; x }" % op, "L")]
-    quickU = {"u8", "u64", "u128"}
-    quickI = {"u8", "u64", "u128", "i8", "i64", "i128"}
+    def classes(T):
+        return (0, 1, 2) if T.endswith("128") else (0, 1)
+    qforms = ("bv_s", "s_br", "assign")
     for opn, op in (("add", "+"), ("sub", "-")):
         for T in U:
-            for l in (0, 1, 2, 3):
-                for key, fe, side in forms(op):
-                    if op == "+":
-                        canon, pre = "|x: &BigUint, y: &BigUint| x + y", "|_c: i8| true"
-                    elif side == "L":
-                        canon, pre = "|x: &BigUint, y: &BigUint| x - y", "|c: i8| c >= 0"
-                    else:
-                        canon, pre = "|x: &BigUint, y: &BigUint| y - x", "|c: i8| c <= 0"
-                    q = T in quickU and l in (1, 2) and key in ("bv_s", "s_br", "assign", "br_sr") and not (l == 2 and key == "br_sr")
-                    if l in (0, 3) and key not in ("bv_s", "s_bv"):
-                        continue
-                    L.append("uform!(c10_%s_u%s_%s_%s_l%d, %d, %s, |a, s| %s, %s, %s);" % (tier(q), opn, T, key, l, l, T, fe, canon, pre))
+            for l in (0, 1, 2):
+                for cls in classes(T):
+                    for key, fe, side in forms(op):
+                        if op == "+":
+                            canon, pre = "|x: &BigUint, y: &BigUint| x + y", "|_c: i8| true"
+                        elif side == "L":
+                            canon, pre = "|x: &BigUint, y: &BigUint| x - y", "|c: i8| c >= 0"
+                        else:
+                            canon, pre = "|x: &BigUint, y: &BigUint| y - x", "|c: i8| c <= 0"
+                        if op == "-" and side == "L" and cls == 2 and l < 2:
+                            continue   # big < scalar always: empty domain
+                        if op == "-" and side == "R" and l == 2 and cls < 2:
+                            continue
+                        q = T in ("u64", "u128") and l == 1 and key in qforms and cls >= 1 and not (T == "u128" and key == "assign")
+                        if l in (0, 2) and key not in ("bv_s", "s_bv", "assign"):
+                            continue
+                        L.append("uform!(c10_%s_u%s_%s_%s_l%d_c%d, %d, %s, %d, from_u64_c%d, from_u128_c%d, |a, s| %s, %s, %s);" % (tier(q), opn, T, key, l, cls, l, T, cls, cls, cls, fe, canon, pre))
         for T in U + I:
             for neg in (False, True):
                 for l in (0, 1, 2):
                     if neg and l == 0:
                         continue
-                    for key, fe, side in forms(op):
-                        if op == "+" or side == "L":
-                            canon = "|x: &BigInt, y: &BigInt| x %s y" % op
-                        else:
-                            canon = "|x: &BigInt, y: &BigInt| y - x"
-                        q = T in quickI and l == 1 and key in ("bv_s", "s_br", "assign") and (neg or key != "assign")
-                        if l in (0, 2) and key not in ("bv_s", "s_bv", "assign"):
-                            continue
-                        L.append("iform!(c10_%s_i%s_%s_%s_%s%d, %s, %d, %s, |a, s| %s, %s);" % (
-                            tier(q), opn, T, key, "m" if neg else "p", l, str(neg).lower(), l, T, fe, canon))
+                    for sneg in ((False, True) if T in I else (False,)):
+                        for cls in classes(T):
+                            if cls == 0 and sneg:
+                                continue
+                            for key, fe, side in forms(op):
+                                if op == "+" or side == "L":
+                                    canon = "|x: &BigInt, y: &BigInt| x %s y" % op
+                                else:
+                                    canon = "|x: &BigInt, y: &BigInt| y - x"
+                                q = T in ("u64", "i64", "i128") and l == 1 and key in ("bv_s", "assign") and cls == (2 if T == "i128" and sneg else 1) and (neg or sneg or key == "bv_s")
+                                if l in (0, 2) and key not in ("bv_s", "s_bv", "assign"):
+                                    continue
+                                L.append("iform!(c10_%s_i%s_%s_%s_%s%d_%sc%d, %s, %d, %s, %s, %d, from_u64_c%d, from_u128_c%d, |a, s| %s, %s);" % (
+                                    tier(q), opn, T, key, "m" if neg else "p", l, "n" if sneg else "p", cls, str(neg).lower(), l, T, str(sneg).lower(), cls, cls, cls, fe, canon))
     return L
 GEN["c10_forms"] = c10_forms
